@@ -245,6 +245,14 @@ func verifStubDG16(b []byte) (*DG16, error) {
 // verifH_C15_import: an arbitrary decoded envelope. Accepting implies the magic, the version bound
 // and the checksum, every field went to its own constructor, and no constructor failed.
 func verifH_C15_import() {
+	if verifParam("prior") == 1 {
+		// history: an earlier, genuine import in the same process must not influence this one
+		var rd0 rawDoc
+		rd0.Dg1 = verifBytes(2)
+		p0 := verifCborBlob(rd0)
+		d0, e0 := NewDocumentFromCbor(verifCborBlob(cborEnvelope{Magic: envelopeMagic, Version: envelopeVersion, SHA256: verifHash("sha256", p0), Payload: p0}))
+		verifAssert(e0 == nil && d0 != nil, "a genuine snapshot is imported")
+	}
 	var rd rawDoc
 	fields := []*[]byte{&rd.CardAccess, &rd.CardSecurity, &rd.Dir, &rd.Com, &rd.Sod, &rd.Dg1, &rd.Dg2, &rd.Dg7, &rd.Dg11, &rd.Dg12, &rd.Dg13, &rd.Dg14, &rd.Dg15, &rd.Dg16}
 	g := verifParam("group")
